@@ -164,7 +164,7 @@ def soak(spec, ctx, cases):
                                 timeout=spec.go_timeout, extra_overlay=spec.overlay(), extra_env=spec.go_extra_env)
     obs, mons, info = vlib.parse_out(opath)
     res = []
-    seen = set()
+    seen = {sig for (_, sig, _) in ctx['impl']['mons']}   # already reported (with shrinking) by the main stream
     for (i, sig, msg) in sorted(mons, key=lambda t: len(cases[t[0]][0])):
         if sig in seen:
             continue
